@@ -250,6 +250,7 @@ func main() {
 	factsProxyTimeout()
 	factsLRUCallbacks()
 	factsSkeleton()
+	factsStoreConstructors()
 
 	out.WriteString("\nend Pike.Facts\n")
 	if outPath == "" {
